@@ -17,6 +17,15 @@ from harness.core import Ctx, Failure, Broken, LeanDriver, Prop, Result
 
 CTXS = ["P", "PA", "B"]
 SIGS = ["sa", "sa2"]          # one signal name is a proper prefix of the other
+NAME_FAMILIES = [
+    (("pm1", "pm10", "pm"), ("sa", "sa2")),                 # prefixes among objects and among signals
+    (("sensor", "sensors", "sens"), ("status", "sensor")),  # signal starts with characters of the object name / equals it
+    (("adc", "adc2", "ad"), ("data", "adc")),
+    (("laser", "laser_2", "las"), ("error", "relas")),      # all characters of the signal occur in the object name
+    (("a", "aa", "ab"), ("aa", "ba")),                      # a/aa, ab/ba
+    (("P", "PA", "B"), ("PA", "P_B")),                      # object and signal names equal to / containing context names
+    (("pub1", "pub11", "pub"), ("sig1", "pub1sig")),
+]
 # who connects to whom (client -> servers)
 LINKS = {"P": [], "PA": ["P"], "B": ["P", "PA"]}
 
@@ -30,9 +39,15 @@ def gen_spec(rng: random.Random, big: bool) -> dict:
     ctxs = CTXS[:nctx]
     # object names with prefix relations (pm < pm1 < pm10): the key selection of handle_object_removed and
     # handle_peer_context_removed is a string-prefix test
-    objs = {"P": ["pm1", "pm10"] + (["pm"] if rng.random() < 0.4 else [])}
+    # name families: (object names o1, o2, o3; signal names).  Besides prefix relations, signal names share leading
+    # characters / whole prefixes / all characters with the object name and with the context names, are equal to it,
+    # or contain it (string functions that work on character sets or prefixes must not confuse them)
+    fam = rng.choice(NAME_FAMILIES)
+    (o1, o2, o3) = fam[0]
+    sigs = list(fam[1])
+    objs = {"P": [o1, o2] + ([o3] if rng.random() < 0.4 else [])}
     if nctx == 3 and rng.random() < 0.5:
-        objs["PA"] = ["pm1"]
+        objs["PA"] = [o1]
     # every kind of publisher the API offers: RPC object / instrument with signals, task (make_task), object without signals
     kinds = {f"{c}.{o}": rng.choice(["obj", "obj", "task", "task", "inst", "plain"]) for c, os_ in objs.items() for o in os_}
     nrcv = rng.randint(2, 5)
@@ -112,7 +127,7 @@ def gen_spec(rng: random.Random, big: bool) -> dict:
                 if not targets:
                     continue
                 (pc, pn) = rng.choice(targets)
-                sg = rng.choice(SIGS)
+                sg = rng.choice(sigs)
                 key = (r, pc, pn, sg)
                 if key in subd and y < 0.75:
                     ops.append(["unsub", r, pc, pn, sg, rng.choice([0, 1, 3])])
@@ -129,7 +144,7 @@ def gen_spec(rng: random.Random, big: bool) -> dict:
                 lanes.append(ops)
         if main or lanes:
             steps.append({"main": main, "lanes": lanes})
-    return {"ctxs": ctxs, "objs": objs, "kinds": kinds, "rcvs": rcvs, "links": links, "steps": steps, "policy": rng.choice(["weighted", "pct", "pct"])}
+    return {"ctxs": ctxs, "objs": objs, "sigs": sigs, "kinds": kinds, "rcvs": rcvs, "links": links, "steps": steps, "policy": rng.choice(["weighted", "pct", "pct"])}
 
 
 # ---------------------------------------------------------------------------
@@ -159,20 +174,12 @@ def run_c08(seed, spec: dict, change_points=None, trace_handler: bool = False, p
         from qmi.core.instrument import QMI_Instrument
         from qmi.core.task import QMI_Task
 
-        class Pub(QMI_RpcObject):                 # plain RPC object with signals
-            sa = QMI_Signal([int])
-            sa2 = QMI_Signal([int])
-
-        class PubInstr(QMI_Instrument):           # instrument with signals
-            sa = QMI_Signal([int])
-            sa2 = QMI_Signal([int])
-
-        class PubTask(QMI_Task):                  # task: signals declared on the task class, registered as a QMI_TaskRunner
-            sa = QMI_Signal([int])
-            sa2 = QMI_Signal([int])
-
-            def run(self):
-                pass
+        sig_names = spec.get("sigs") or SIGS
+        decl = {sg: QMI_Signal([int]) for sg in sig_names}
+        Pub = type("Pub", (QMI_RpcObject,), dict(decl))                       # plain RPC object with signals
+        PubInstr = type("PubInstr", (QMI_Instrument,), dict(decl))            # instrument with signals
+        # task: signals declared on the task class, registered as a QMI_TaskRunner
+        PubTask = type("PubTask", (QMI_Task,), dict(decl, run=lambda self: None))
 
         class Plain(QMI_RpcObject):               # object without signals (subscriptions by name are still possible)
             pass
@@ -326,7 +333,7 @@ def run_c08(seed, spec: dict, change_points=None, trace_handler: bool = False, p
                 for (c, o) in sorted(proxies):
                     if c not in live or proxies[(c, o)] is None:
                         continue
-                    for sg in SIGS:
+                    for sg in sig_names:
                         uid[0] += 1
                         probes[uid[0]] = (c, o, sg)
                         ctxs[c].publish_signal(o, sg, uid[0])
@@ -473,7 +480,7 @@ def run_c08(seed, spec: dict, change_points=None, trace_handler: bool = False, p
                                 and proxies.get((e[1], e[2])) is not None
                                 and (e[1] == spec["rcvs"][e[0]] or (spec["rcvs"][e[0]], e[1]) in conns)}
                     # -- model: tables + quiescence -------------------------------------------------------------
-                    tr.note_keys(spec["ctxs"], all_objs, SIGS)
+                    tr.note_keys(spec["ctxs"], all_objs, sig_names)
                     for n in sorted(live):
                         tr.dump(tr.cid(n))
                     tr.emit(f"quiet {len(spec['ctxs'])}", "quiet")
@@ -530,6 +537,57 @@ STALE_SPEC = {"ctxs": ["P", "PA"], "objs": {"P": ["pm1"]}, "rcvs": ["PA"],
               "policy": "weighted"}
 
 
+def resend_clears_mark():
+    """Obligation tied to the source (model: `handleReplyStep`, theorems `marked_success_is_resent`, `resend_consumes_mark`): in
+    `SignalManager._handle_subscription_reply` the mark `publisher_removed` of the pending request is cleared, under the
+    lock, on the path on which the subscribe request is sent again - so that a further re-send needs a further removal
+    notice (an action of the environment), which is the termination argument of the repeat.  Accepted shapes: the
+    assignment `pending_request.publisher_removed = False` stands (a) unconditionally in the `with self._lock` block,
+    after the statement that computes `retry` from the mark, or (b) in the `if` block that builds the new
+    QMI_SignalSubscriptionRequest.  Anything else (e.g. clearing only when the request completes) raises."""
+    import ast
+    from harness.core import REPO
+    tree = ast.parse((REPO / "qmi/core/pubsub.py").read_text())
+    cls = next((n for n in tree.body if isinstance(n, ast.ClassDef) and n.name == "SignalManager"), None)
+    fn = cls and next((n for n in cls.body if isinstance(n, ast.FunctionDef) and n.name == "_handle_subscription_reply"), None)
+    if fn is None:
+        raise RuntimeError("SignalManager._handle_subscription_reply not found in qmi/core/pubsub.py")
+    withs = [n for n in fn.body if isinstance(n, ast.With)
+             and any(isinstance(i.context_expr, ast.Attribute) and i.context_expr.attr == "_lock" for i in n.items)]
+    if len(withs) != 1:
+        raise RuntimeError("_handle_subscription_reply: expected one `with self._lock` block")
+    body = withs[0].body
+
+    def mentions_mark(node):
+        return any(isinstance(x, ast.Attribute) and x.attr == "publisher_removed" for x in ast.walk(node))
+
+    def clears_mark(node):
+        return (isinstance(node, ast.Assign) and len(node.targets) == 1 and isinstance(node.targets[0], ast.Attribute)
+                and node.targets[0].attr == "publisher_removed" and isinstance(node.value, ast.Constant) and node.value.value is False)
+
+    def builds_request(node):
+        return any(isinstance(x, ast.Call) and isinstance(x.func, ast.Name) and x.func.id == "QMI_SignalSubscriptionRequest"
+                   for x in ast.walk(node))
+
+    uses = [i for i, st in enumerate(body) if mentions_mark(st) and not clears_mark(st)]
+    if not uses:
+        return "no-mark"          # the source does not use the mark at all (tree before 3b40385): nothing to clear
+    first_use = uses[0]
+    resend = [i for i, st in enumerate(body) if isinstance(st, ast.If) and builds_request(st)]
+    if len(resend) != 1:
+        raise RuntimeError("_handle_subscription_reply: expected one `if` block that builds the repeated request")
+    # (a) unconditional, after the mark has been read, not after the block that re-sends
+    if any(clears_mark(st) and first_use < i < resend[0] for i, st in enumerate(body)):
+        return "unconditional"
+    # (b) in the block that builds the new request (top level of that block)
+    if any(clears_mark(st) for st in body[resend[0]].body):
+        return "in-resend-block"
+    where = [ast.unparse(st.test) for st in body if isinstance(st, ast.If) and any(clears_mark(x) for x in ast.walk(st))]
+    raise RuntimeError("_handle_subscription_reply: the mark `publisher_removed` is not cleared on the path that sends the subscribe "
+                       "request again (model: the re-send consumes the mark, `marked_success_is_resent`); it is cleared only under: "
+                       + (" ; ".join(where) if where else "nowhere"))
+
+
 class C08(Prop):
     id = "C08"
     lean_modules = ["QmiModel.Props.C08"]
@@ -544,9 +602,19 @@ class C08(Prop):
         "quiescent consistency is PROVED for the model (quiescent_consistency: simulation onto a finite abstraction of the protocol, "
         "Lemmas/C08Proto..C08Sim10) under the hypothesis that no live context is half-way through its stop; on the implementation the "
         "oracle checks it per history (table iff in both directions, probes, transmitted peers); "
-        "termination of the internal activity (a decreasing measure) is not mechanised: subscribe_terminates covers states at rest",
+        "termination of the internal activity is PROVED for the model (activity_terminates / subscribe_terminates_along_runs: a "
+        "lexicographic measure, Lemmas/C08Term1..4; the re-send is paid for by the mark of the pending request, which only a removal "
+        "notice - an action of the environment - sets: resend_consumes_mark); on the implementation the source obligation "
+        "`resend_clears_mark` (AST of _handle_subscription_reply) ties the clearing of the mark to the re-send path, and a run that exceeds "
+        "the scheduler's step budget is reported (step-budget-exceeded)",
         "the deterministic scheduler, the simulated network and the tap layer (harness/props/pubsub_common.py)",
     ]
+
+    def translate(self, ctx: Ctx) -> list:
+        # no generated file: the obligation is a shape of the source that the model relies on; unknown shapes fail loudly
+        shape = resend_clears_mark()
+        ctx.log(f"source obligation: the re-send of a marked success clears the mark ({shape})")
+        return []
 
     def _run_batch(self, ctx: Ctx, cases: list, res: Result, tag: str):
         from harness.props import pubsub_common as PC
